@@ -3,3 +3,57 @@
 /// introspection for harnesses of sibling modules
 pub fn broadcast_payload<T: Send + Sync + 'static>(d: &BroadcastEventData<T>) -> &T { d.read() }
 pub fn entity_event_payload<T: Send + Sync + 'static>(d: &EntityEventData<T>) -> (Entity, &T) { d.read() }
+
+use bevy::ecs::system::Res;
+pub struct Pa(pub u8);
+pub struct Pb(pub u8);
+
+/// C03 / C04: `BroadcastEvent::try_read` / `EntityEvent::try_read` answer iff the tracker says "reacting" AND the
+/// tracker's data entity carries data of exactly that reader's kind and type; otherwise `Err` - in particular when
+/// the data entity is still alive (other listeners pending) but this run is not reacting to it.
+#[kani::proof]
+#[kani::stub(core::any::TypeId::of, crate::vh::stub_typeid_of)]
+#[kani::stub(<core::any::TypeId as crate::vh::PEq>::eq, crate::vh::stub_typeid_eq)]
+#[kani::unwind(4)]
+fn event_readers_answer_only_while_reacting()
+{
+    let mut world = World::new();
+    let payload: u8 = kani::any();
+    let target = ent(30);
+    let kind = any_below(3);      // what the data entity carries: 0 broadcast Pa, 1 entity event Pa, 2 broadcast Pb
+    let d = match kind
+    {
+        0 => world.spawn(BroadcastEventData::new(Pa(payload))).id(),
+        1 => world.spawn(EntityEventData::new(target, Pa(payload))).id(),
+        _ => world.spawn(BroadcastEventData::new(Pb(payload))).id(),
+    };
+    let other = world.spawn_empty().id();
+    let reacting: bool = kani::any();
+    let points_at_data: bool = kani::any();
+    let tracker = EventAccessTracker{ currently_reacting: reacting, data_entity: if points_at_data { d } else { other }, prepared: Vec::new() };
+    let wp = &mut world as *mut World;
+
+    let bro: BroadcastEvent<Pa> = BroadcastEvent{ tracker: Res::m_new(&tracker), data: qry(wp) };
+    let ee: EntityEvent<Pa> = EntityEvent{ tracker: Res::m_new(&tracker), data: qry(wp) };
+    let bro_b: BroadcastEvent<Pb> = BroadcastEvent{ tracker: Res::m_new(&tracker), data: qry(wp) };
+
+    match bro.try_read()
+    {
+        Ok(p) => assert!(reacting && points_at_data && kind == 0 && p.0 == payload, "C03/C04: a broadcast is readable only during a run reacting to it, and it is that event's payload"),
+        Err(_) => assert!(!(reacting && points_at_data && kind == 0), "C03: the reacting run can read its event"),
+    }
+    match ee.try_read()
+    {
+        Ok((t, p)) => assert!(reacting && points_at_data && kind == 1 && t == target && p.0 == payload, "C03/C04: entity event readable only by the reacting run; own target and payload"),
+        Err(_) => assert!(!(reacting && points_at_data && kind == 1), "C03: the reacting run can read its event"),
+    }
+    match bro_b.try_read()
+    {
+        Ok(p) => assert!(reacting && points_at_data && kind == 2 && p.0 == payload, "C03: a reader of another type sees nothing"),
+        Err(_) => assert!(!(reacting && points_at_data && kind == 2), "C03: the reacting run can read its event"),
+    }
+    assert!(bro.is_empty() == bro.try_read().is_err(), "is_empty agrees with try_read");
+    kani::cover!(!reacting && points_at_data && kind == 0, "data entity alive but this run is not reacting");
+    kani::cover!(reacting && points_at_data && kind == 0, "reacting to a broadcast");
+    std::mem::forget(world);
+}
